@@ -9,6 +9,8 @@ import Spq.Drv.Cache
 import Spq.Drv.Cover
 import Spq.Drv.ModuleNtt
 import Spq.Drv.CSrc
+import Spq.Drv.ModuleHeap
+import Spq.Drv.Prog
 /- Model driver: one operation per line in, one canonical result line out. -/
 open Spq.Drv
 
@@ -28,6 +30,8 @@ def dispatch (toks : List String) : String :=
     | "cv" :: rest => handleCv rest
     | "mn" :: rest => handleMn rest
     | "cs" :: rest => handleCs rest
+    | "mh" :: rest => handleMh rest
+    | "pg" :: rest => handlePg rest
     | _ => none
   r.getD "bad-op"
 
